@@ -654,6 +654,10 @@ func hpGridWrites(t *hpType) []*hpWrite {
 			add([][]int{t.it(-1, -1, 2)}, "F", t.selOf(0), "F", nil, t.elOf(v0))
 			add([][]int{t.it(1, -1, 2)}, "E", nil, "F", t.selOf(1), t.elOf(v0))
 		}
+		// both filters in one command (partial filter without data + delete filter; selector + delete)
+		add([][]int{t.it(1, -1, 2)}, "E", nil, "F", t.selOf(0), nil)
+		add([][]int{t.it(-1, -1, 2)}, "E", nil, "F", t.selOf(1), nil)
+		add([][]int{t.it(-1, -1, 2)}, "F", t.selOf(2), "F", t.selOf(0), nil)
 	}
 	if t.elT != nil {
 		add(nil, "N", nil, "F", nil, t.elOf(v0))
